@@ -1,6 +1,6 @@
 (* Model of /repo/v23/distinfo.go: computePatchSha1Hex, checkPatchSha1, and of
-   the Autofix.Replace call it makes (autofix.go ReplaceAfter with prefix "",
-   util.go replaceOnce, strings.Contains / Index / LastIndex / Count).
+   the Autofix.ReplaceAfter call it makes, Autofix.Replace (= ReplaceAfter with prefix ""),
+   Package.AutofixDistinfo (package.go), util.go replaceOnce, strings.Contains / Index / LastIndex / Count.
    The hash (SHA-1, printed as lower-case hex) is a Section variable: both pkglint
    and makepatchsum apply it to a byte string.  No proofs here. *)
 From PV Require Import Lib.Bytes Model.Lines.
@@ -68,12 +68,28 @@ Definition autofix_replace (texts : list str) (from to : str) : list str :=
   let n := fold_left (fun n t => n + str_count t from) texts 0 in
   if n =? 1 then replace_in_texts texts from to else texts.
 
+(* Autofix.ReplaceAfter(prefix, from, to): prefix+from is replaced by prefix+to,
+   under the same "counted exactly once" rule *)
+Definition autofix_replace_after (prefix : str) (texts : list str) (from to : str) : list str :=
+  autofix_replace texts (prefix ++ from) (prefix ++ to).
+
+(* ") = " *)
+Definition entry_sep : str := [41; 32; 61; 32].
+
 (* package.go Package.AutofixDistinfo(oldSha1, newSha1), called by the patch
-   checker after it has saved fixes to a patch file: `for _, line := range
-   lines.Lines { fix.Replace(oldSha1, newSha1) }` on the lines of distinfo
-   (each element = the fix.texts of one line) *)
-Definition autofix_distinfo (lines_texts : list (list str)) (old_sha1 new_sha1 : str) : list (list str) :=
-  map (fun texts => autofix_replace texts old_sha1 new_sha1) lines_texts.
+   checker after it has saved fixes to a patch file.  Each element is one line of
+   distinfo: its fix.texts, and -- when the line is `SHA1 (<name>) = ...` and
+   patches/<name> can be loaded -- computePatchSha1Hex of that file.  Entries of
+   patches that do not have the new hash are skipped (`continue`); all other
+   lines get fix.Replace(oldSha1, newSha1). *)
+Definition autofix_distinfo (lines : list (list str * option str)) (old_sha1 new_sha1 : str)
+  : list (list str) :=
+  map (fun l => match snd l with
+                | Some other_sha1 =>
+                  if negb (str_eqb other_sha1 new_sha1) then fst l
+                  else autofix_replace (fst l) old_sha1 new_sha1
+                | None => autofix_replace (fst l) old_sha1 new_sha1
+                end) lines.
 
 Section PatchSum.
 Variable H : str -> str.   (* sprintf("%x", sha1(bytes)) *)
@@ -86,7 +102,7 @@ Definition compute_patch_sha1_hex (lines : list line) : str := H (hashed_bytes l
 
 Inductive verdict : Type :=
 | Silent                                    (* no diagnostic *)
-| Differs (distinfo_hex file_hex : str)     (* "SHA1 hash of … differs" + Replace(distinfo_hex, file_hex) *)
+| Differs (distinfo_hex file_hex : str)     (* "SHA1 hash of … differs" + ReplaceAfter(") = ", distinfo_hex, file_hex) *)
 | DoesNotExist                              (* Load returned nil *)
 | LoadPanic.                                (* excluded by C18_check_total *)
 
@@ -109,7 +125,7 @@ Definition check_patch_sha1 (patch : option str) (distinfo_sha1_hex : str) : ver
 (* the texts of the distinfo line after the fix of checkPatchSha1 *)
 Definition fix_distinfo_line (texts : list str) (v : verdict) : list str :=
   match v with
-  | Differs old new => autofix_replace texts old new
+  | Differs old new => autofix_replace_after entry_sep texts old new   (* fix.ReplaceAfter(") = ", old, new) *)
   | _ => texts
   end.
 End PatchSum.
